@@ -128,6 +128,8 @@ func TestVerifC09(t *testing.T) {
 		vfC09Gen(t, sc, w)
 		return
 	}
+	vfC09ParkFirstTargetWrite = true
+	defer func() { vfC09ParkFirstTargetWrite = false }()
 	facs := map[string]*vfC09StateFactory{}
 	for sc.Scan() {
 		ln := strings.TrimSpace(sc.Text())
